@@ -14,7 +14,7 @@ LEVEL = 'fault_enumeration'
 RULE = ('scenario (Hypothesis): 1-3 small programs read through io.read (open stream or factory; one may be invalid '
         'text), printer in {pretty, minify, minify+obfuscate}, source-map arrangement in {none, separate stream, same '
         'object as output, separate factory}, output as open stream or factory, stream names absolute / relative / '
-        'relative with directory / missing, sourcemap_normalize_mappings, sourcemap_normalize_paths, '
+        'relative with directory / containing a backslash (an ordinary character where the separator is /) / missing, sourcemap_normalize_mappings, sourcemap_normalize_paths, '
         'source_mapping_url in {default, explicit, None}, nodes given as a single node / list / tuple / iterator / lazily produced generator (each pull is a fault point), programs whose printed form is empty, output stream encoding in {unset, utf-8, utf-16, ascii, latin-1, shift_jis} with programs whose identifiers lie outside those code pages (an inline map that cannot be encoded must fail, not be mislabelled). Streams are recording doubles. Fault points, enumerated '
         'exhaustively per scenario: the scenario is run fault-free to count every factory call, read, parser call, '
         'fragment pulled from the unparser, write and writelines; then re-run once per event with a marker exception '
@@ -107,6 +107,12 @@ NAMES = {
     'reldir': ('out/a.min.js', 'out/a.min.js.map', ['src/x.js', 'src/y.js', 'z.js']),
     'missing': (None, None, [None, None, None]),
 }
+import os as _os
+if _os.sep == '/':
+    # where the backslash is an ordinary file-name character, names that contain one
+    NAMES['abs_backslash'] = ('/w/out/a.min.js', '/w/out/maps\\v2/a.min.js.map',
+                              ['/w/src\\old/x.js', '/w/out/y\\z.js', '/w/z.js'])
+    NAMES['rel_backslash'] = ('a\\b.min.js', 'a\\b.min.js.map', ['x\\y.js', 'y.js', 'z.js'])
 
 
 def make_printer(kind):
@@ -358,7 +364,7 @@ def check_scenario(acc, opens, sc):
                             return execs, 0
                     elif out_name is not None and map_name is not None:
                         resolved = posixpath.normpath(posixpath.join(posixpath.dirname(out_name), url))
-                        if resolved != posixpath.normpath(map_name) or '\\' in url:
+                        if resolved != posixpath.normpath(map_name) or ('\\' in url and '\\' not in map_name):
                             if not fail('url_does_not_designate_map', url=url, output=out_name, map=map_name,
                                         resolved=resolved):
                                 return execs, 0
@@ -423,7 +429,7 @@ def scenario(draw):
         'printer': draw(st.sampled_from(['pretty', 'min', 'obf'])),
         'map': draw(st.sampled_from(['none', 'separate', 'same', 'factory'])),
         'out_factory': draw(st.booleans()),
-        'names': draw(st.sampled_from(['abs', 'abs_siblings', 'abs_nested', 'rel', 'reldir', 'missing'])),
+        'names': draw(st.sampled_from(sorted(NAMES))),
         'norm_mappings': draw(st.booleans()),
         'norm_paths': draw(st.booleans()),
         'url': draw(st.sampled_from(['default', 'default', 'explicit', 'none'])),
